@@ -206,7 +206,7 @@ class TreeGen:
         ts = parent.view.time + (dt if dt is not None else rng.choice([1, 60, 100, 120, 150, 200, 300]))
         height = parent.height + 1
         cb = coinbase(height, self.env.subsidy(height) + fees + reward_delta, miner or rng.choice(self.keys.pks),
-                      data=bytes([rng.randrange(256) for _ in range(rng.choice([0, 3, 8]))]))
+                      data=bytes([rng.randrange(256) for _ in range(rng.choice([0, 3, 8]))]) + b'#%d' % len(self.nodes))
         blk = assemble(self.env, parent, [cb] + txs, ts)
         node = Node(blk, parent, spec.apply_block(parent.utxo, spec.BlockView(blk)))
         self.nodes.append(node)
